@@ -17,7 +17,21 @@ def opPass (inp impl : Json) : Except String Resp := do
   match Karp.Spec.InterPod.outcomeOK s out with
   | none => pure { allowed := some true, spec := some true }
   | some why =>
-    let sig := (why.splitOn ":").head!
+    -- CLASSIFIES (never excuses): the scheduler itself logged "failed updating topology" (Topology.Update failed after a
+    -- relaxation, here because of an injected API fault) and went on.  Update has by then removed the pod from all its topology
+    -- groups, so the pod was placed without its inter-pod constraints (repaired in /repo by e23d5522f; the label is kept so that a regression is reported under a telling signature - no known finding matches it).  Violations of terms carried by pods that
+    -- were already running do not go through that path and keep their plain signature.
+    let logs := match fldOpt impl "errorLogs" with
+      | some v => (listOf asStr v).toOption.getD []
+      | none => []
+    let degraded := logs.contains "failed updating topology"
+    let (why, sigOverride) :=
+      if degraded then
+        match Karp.Spec.InterPod.runningCarriersOK s out with
+        | some w => (w, none)
+        | none => (why, some "continued-after-failed-topology-update")
+      else (why, none)
+    let sig := sigOverride.getD (why.splitOn ":").head!
     pure { allowed := some true, spec := some false, why := why, extra := some (jObj [("signature", jStr sig)]) }
 
 def handle : Handler := fun op inp impl =>
